@@ -1163,20 +1163,35 @@ theorem delete_glue (root : Mod) (files : List (Option Mod))
         decide_true, ↓reduceIte, List.filterMap_cons, id_eq]
       rw [← ih']
 
+theorem insidePairs_noroot (root : Mod) (pairs : List (Option Mod × Option Mod))
+    (h : ∀ p ∈ pairs, p.1 ≠ some root ∧ p.2 ≠ some root) :
+    ∀ q ∈ insidePairs pairs, q.1 ≠ root ∧ q.2 ≠ root := by
+  intro q hq
+  simp only [insidePairs, List.mem_filterMap] at hq
+  obtain ⟨p, hp, hpq⟩ := hq
+  have := h p hp
+  obtain ⟨p1, p2⟩ := p
+  cases p1 <;> cases p2 <;> simp_all
+  obtain ⟨rfl, rfl⟩ := hpq
+  exact ⟨this.1, this.2⟩
+
 /-- The handlers' calls have the file-system effect of the notification. -/
 theorem glue_file_view (root : Mod) (S : Sources Mod Content) (ev : Event Mod Content)
     (h : EventNoRoot root ev) : applyOp root S (glue root ev) = applyEvent root S ev := by
   cases ev with
   | didChange m t =>
-    have hm : m ≠ root := h
-    simp [applyOp, glue, applyEvent, writeBatch, hm, insert, erase]
+    cases m with
+    | none => simp [applyOp, glue, applyEvent, writeBatch]
+    | some m =>
+      have hm : m ≠ root := fun e => h (by rw [e])
+      simp [applyOp, glue, applyEvent, writeBatch, hm, insert, erase]
   | didCreate files => rfl
   | didRename pairs =>
-    have : renamePairs root pairs = pairs := by
+    have : renamePairs root (insidePairs pairs) = insidePairs pairs := by
       unfold renamePairs
       rw [List.filter_eq_self]
       intro p hp
-      have := h p hp
+      have := insidePairs_noroot root pairs h p hp
       simp [this.1, this.2]
     simp only [applyOp, glue, applyEvent, this]
   | didDelete files =>
